@@ -58,10 +58,10 @@ func SelfTest() error {
 		fen  string
 		keep bool
 	}{
-		{"8/8/8/8/k2Pp2Q/8/8/3K4 b - d3 0 1", false},  // e.p. would expose the king on the rank
-		{"8/8/8/2k5/3Pp3/8/8/4K3 b - d3 0 1", true},   // pawn gives check, e.p. capture resolves it
-		{"4k3/8/8/8/4pP2/8/8/4K3 b - f3 0 1", true},   // plain legal e.p.
-		{"6k1/8/8/8/3pP3/8/B7/4K3 b - e3 0 1", false}, // black is in check by the bishop, e.p. does not resolve it
+		{"8/8/8/8/k2Pp2Q/8/8/3K4 b - d3 0 1", false}, // e.p. would expose the king on the rank
+		{"8/8/8/2k5/3Pp3/8/8/4K3 b - d3 0 1", true},  // pawn gives check, e.p. capture resolves it
+		{"4k3/8/8/8/4pP2/8/8/4K3 b - f3 0 1", true},  // plain legal e.p.
+		{"8/8/8/7k/3pP3/8/8/3BK3 b - e3 0 1", false}, // check discovered through the origin square, e.p. does not resolve it
 		{"4k3/4r3/8/8/3pP3/8/8/4K3 b - e3 0 1", true},
 	} {
 		p := MustFEN(c.fen)
